@@ -344,6 +344,17 @@ func corpus() []prog {
 		g.Link(n2, e2, nil)
 	}, nil, false)
 	ps[len(ps)-1].throwAll = true
+	// the programs with a node that takes events, once more with six signals (of the references
+	// the corpus uses) handed to the instance right after the cancel is issued
+	for _, q := range ps {
+		switch q.name {
+		case "catch-listening", "event-gateway-armed", "event-gateway-determined", "boundary-armed", "boundary-fired", "subprocess-interrupted",
+			"catch-in-subprocess", "parallel-multiple-half", "two-starts", "throw-then-pending", "throw-all":
+			q.name += "+events"
+			q.flood = "*"
+			ps = append(ps, q)
+		}
+	}
 	return ps
 }
 
@@ -379,8 +390,12 @@ func bodyK(p prog, maxK int, startRace bool) func() {
 			}
 			issuedEv++
 			go func() {
+				refs := []string{p.flood}
+				if p.flood == "*" {
+					refs = []string{"A", "B", "E1", "T"}
+				}
 				for i := 0; i < 6; i++ {
-					r.Signal(p.flood)
+					r.Signal(refs[i%len(refs)])
 				}
 				returnedEv++
 			}()
